@@ -113,15 +113,37 @@ pub fn gen_case(r: &mut Rng, max: usize) -> (Model, Vec<usize>, &'static str) {
     (m, src, fam)
 }
 
+/// Tens of thousands of superseded heap entries in a row: 0->1 (1), 0->i (5),
+/// 1->i (1) for all other i.
+fn huge_stale(r: &mut Rng) -> (Model, Vec<usize>, &'static str) {
+    let n = *r.pick(&[60_000usize, 100_000, 200_000]);
+    let mut m = Model::new(n);
+    m.arcs.insert((0, 1), 1);
+    for i in 2..n {
+        m.arcs.insert((0, i), 5);
+        m.arcs.insert((1, i), 1);
+    }
+    (m, vec![0], "huge_run_of_superseded_entries")
+}
+
 pub fn case(idx: u64, seed: u64, p: &Params, o: &mut CaseOut) {
     let mut r = Rng::for_case(3, seed, idx);
-    let (m, src, fam) = gen_case(&mut r, p.usize("max_order", 24));
+    let every = p.u64("huge_every", 200_000);
+    let (m, src, fam) = if every > 0 && idx % every == 99 { huge_stale(&mut r) } else { gen_case(&mut r, p.usize("max_order", 24)) };
     let n = m.n();
     let k = usize_scale(&mut r, &m);
     let d = build_w_usize_scaled(&m, k);
     let refd = m.dist_from(&src).expect("harness: negative circuit with non-negative weights");
     let want: Vec<usize> = (0..n).map(|v| refd.get(&v).map_or(usize::MAX, |&x| x as usize * k)).collect();
 
+    // searches that are abandoned early (point-to-point use) must not affect later ones
+    {
+        let _ = Dijkstra::new(&d, src.iter().copied()).next();
+        let _ = DijkstraDist::new(&d, src.iter().copied()).take(2).count();
+        let t = n / 2;
+        let _ = DijkstraDist::new(&d, src.iter().copied()).find(|&(v, _)| v == t);
+        let _ = DijkstraPred::new(&d, src.iter().copied()).nth(1);
+    }
     // distances()
     let got = DijkstraDist::new(&d, src.iter().copied()).distances();
     o.eq("DijkstraDist::distances", &got, &want);
